@@ -55,6 +55,21 @@ def base_grammar(r):
         stmts.append(call('cmd', seq(lit('tailcase'), e)))
         if e == shapes[-1]:
             stmts.append(defn('TD', None, lit('never')))
+    if r.random() < 0.25:
+        # words nested in words through a chain of 2-5 definitions, the last level a plain alternative or a
+        # placeholder in tail position
+        k = r.randint(2, 5)
+        stmts = list(stmts)
+        names = ['NW%d' % i for i in range(k)]
+        for i, nm in enumerate(names):
+            if i == k - 1:
+                body = r.choice([alt(lit('d'), lit('e')), nt('UU'), lit('only')])
+            else:
+                body = ('word', (lit('%s%d=' % (r.choice('abc'), i)), nt(names[i + 1])))
+                if r.random() < 0.3:
+                    body = alt(lit('plain%d' % i), body)
+            stmts.insert(r.randint(0, len(stmts)), defn(nm, None, body))
+        stmts.append(call('cmd', seq(lit('nested'), ('word', (lit('--n='), nt(names[0]))), opt(lit('after')))))
     return stmts
 
 
@@ -93,20 +108,33 @@ def attach(r, stmts, p):
     return stmts
 
 
-def plant(r, stmts, shell):
+def plant(r, stmts, shell, kind=None):
     """-> (kind, stmts', expected_for_this_shell: bool)"""
-    kind = r.choice(list(KINDS))
+    kind = kind or r.choice(list(KINDS))
     stmts = list(stmts)
     if kind == 'cycle':
         n = r.randint(1, 4)
         names = ['Z%d' % i for i in range(n)]
+        used = {st[1] for st in stmts if st[0] == 'def'}
+        pool = [x for x in common.NAME_POOL if x not in used and x not in ('PATH', 'DIRECTORY')]
+        hang = []
+        if r.random() < 0.5 and len(pool) >= n + 3:
+            # names of any spelling (their order in the compiler's tables varies), and a chain of ordinary
+            # definitions hanging below one member of the cycle
+            picked = r.sample(pool, n + r.randint(0, 3))
+            names, hang = picked[:n], picked[n:]
         for i, nm in enumerate(names):
             nxt = nt(names[(i + 1) % n])
             body = r.choice([nxt, seq(lit('c%d' % i), nxt), alt(nxt, lit('c%d' % i)), opt(nxt),
                              ('word', (lit('w%d=' % i), nxt)), many(seq(lit('m'), nxt))])
+            if hang and i == n - 1:
+                body = seq(body, nt(hang[0]))
             stmts.insert(r.randint(0, len(stmts)), defn(nm, None, body))
+        for j, h in enumerate(hang):
+            hb = nt(hang[j + 1]) if j + 1 < len(hang) else lit('leaf%d' % j)
+            stmts.insert(r.randint(0, len(stmts)), defn(h, None, hb if r.random() < 0.6 else seq(lit('h%d' % j), hb)))
         where = r.random()
-        if where < 0.4:
+        if where < 0.4 or (hang and where < 0.7):
             stmts = attach(r, stmts, nt(names[r.randrange(n)]))
         elif where < 0.6:
             stmts.insert(r.randint(0, len(stmts)), defn('ROOT', None, seq(lit('r'), nt(names[0]))))
